@@ -135,6 +135,12 @@ def run_case(case, tier="quick"):
     meta = case.get("meta") or {}
     ref, ref_desc, exact = None, None, False
 
+    def best_of(sub):
+        b_, _s, _t, complete_ = bf.best_over_route_sets("mpe", sub, keff, inst.f_req, inst.scale, wt,
+                                                        constraint_pred(inst, sub, constraints, coverage, cyc, spec), max_sets=3000)
+        return b_, complete_
+
+
     def factors_of_family(mults):
         if not factors:
             return None
@@ -236,8 +242,9 @@ def run_case(case, tier="quick"):
     if ref is not None and obj_re > ref + tol:
         if solver_artifact(case, tier, r):
             return inconclusive("solver artefact: objective changes with HiGHS presolve off", labels)
-        if cyc and isinstance(ref_desc, list) and ref_desc and isinstance(ref_desc[0], dict):
-            facts["ref_multiplicity_exceeds_cap"] = max(max(d.values()) for d in ref_desc) > max(inst.f.values())
+        if cyc:
+            ceg = inst.cap_explains_gap(r.model, ref_desc, best_of, obj_re, tol)
+            facts["cap_explains_gap"] = "undecided" if ceg is None else ceg
         return violation("not_optimal", f"returned total slack {obj_re} (routes {routes}, weights {weights}, slacks {slacks}) but {ref} is achievable with {ref_desc}", labels, facts=dict(facts, reference=ref))
     if exact and ref is not None and obj_re < ref - tol:
         return inconclusive(f"oracle disagreement: returned {obj_re} below the exhaustive optimum {ref}", labels)
